@@ -300,6 +300,17 @@ Definition kv_chk_C12 (c : scase * list ostep) : bool := chk_C12_kv c.
 Definition kv_corr_C12 := kv_corr_proj mask_C11 (fun o => match o with SView _ _ _ _ | SPutDDoc _ _ _ | SDelDDoc _ _ => true | _ => false end).
 
 Definition kv_chk_C04 (c : scase * list ostep) : bool := chk_C04_kv c.
+
+(* C03 on kv histories: the read-modify-write calls (Update, WriteUpdateWithXattrs, sub-document writes, Incr), in
+   particular those with another call nested in their read-to-write window (the harness emits the nested call,
+   an SDraw step and the enclosing call): the enclosing call must act on the document the nested call left *)
+Definition rmw_op (op : kop) : bool :=
+  match op with
+  | KUpdate _ _ | KWriteUpdateWithXattrs _ _ | KWriteSubDoc _ _ _ | KSubdocInsert _ _ _ | KIncr _ _ _ => true
+  | _ => false
+  end.
+Definition kv_chk_C03 (c : scase * list ostep) : bool := chk_C01_full c && chk_C18_kv c && chk_C17_kv c.
+Definition kv_corr_C03 := kv_corr_addr mask_C08 (fun o => match o with SKv _ _ op => rmw_op op | SDraw _ _ _ _ => true | _ => false end).
 (*                               resp  body  cas   exp   xattr rev   json  del   live  order *)
 Definition mask_C04 := mkMask    false false true  false false false false false true  false.
 Definition kv_corr_C04 := kv_corr_proj mask_C04 (fun o => negb (is_withmeta_step o)).
